@@ -66,8 +66,16 @@ class _StubParser(object):
         self.tree = _StubTree(foreign)
 
 
-def h5_tokens(text, state, last, cdata):
-    from html5lib import _tokenizer, constants
+def h5_tokens(text, state, last, cdata, chunk=None):
+    from html5lib import _tokenizer, constants, _inputstream
+    if chunk:
+        U = _inputstream.HTMLUnicodeInputStream
+        old = U._defaultChunkSize
+        U._defaultChunkSize = chunk
+        try:
+            return h5_tokens(text, state, last, cdata)
+        finally:
+            U._defaultChunkSize = old
     tt = constants.tokenTypes
     names = {v: k for k, v in tt.items()}
     tok = _tokenizer.HTMLTokenizer(text, parser=_StubParser(cdata))
@@ -103,8 +111,13 @@ def judge(ctx, text, state="data", last=None, cdata=False, fam="?"):
     install()
     case = {"input": text, "state": state, "last_start_tag": last, "cdata": cdata}
     exp = rtok.tokenize(text, state, last, cdata)
+    chunk = None
+    if fam in ("soup", "lookahead") and (len(text) % 3 == 0):
+        chunk = 1 + (len(text) * 7 + len(state)) % 9   # deterministic small chunk size 1..9
+        ctx.count("runs_with_small_chunks")
+        case["chunk"] = chunk
     try:
-        got = h5_tokens(text, state, last, cdata)
+        got = h5_tokens(text, state, last, cdata, chunk)
     except Exception as e:
         ctx.case([text, state, last, cdata], True)
         ctx.violation("tokenizer-raised:" + type(e).__name__, case, "%s: %s" % (type(e).__name__, short(str(e), 200)))
@@ -204,7 +217,7 @@ def shard(ctx):
 
 
 def replay(ctx, case):
-    judge(ctx, case["input"], case["state"], case["last_start_tag"], case["cdata"], "replay")
+    judge(ctx, case["input"], case["state"], case["last_start_tag"], case["cdata"], "soup" if case.get("chunk") else "replay")
 
 
 def finalize(m, v):
